@@ -4,6 +4,10 @@ import itertools
 import wire
 from vlib import Case
 
+# every case of this module is a direct operator / builtin / codec application whose size the oracle computes:
+# a "capacity overflow" panic is never excused here
+MEMORY_EXCLUSION_IN_UNCONSTRAINED = False
+
 RULE = ("ops `eqhash a b` (Object::eq, the byte stream fed to the hasher, is_a_valid_key) and `hmap <map> <steps>` (a real HMap driven through "
         "insert/get/contains/len builtins and the VM's m[k] / m[k]=v) vs the Lean HMap model; the spec is an association list under == (Spec.Assoc); "
         "all ordered pairs from the key domain + random insert/overwrite/lookup sequences; non-trivial = a sequence with at least one hit on an existing key or a pair of equal keys")
